@@ -525,7 +525,11 @@ fn c19(p: &Prog, rec: &mut Rec, tier: u8) {
     // --- max_branches: exactly the longest decision path is needed
     if l >= 2 {
         // every limit below the need (a run with a limit m < L fails in its first iteration that needs more: cheap)
-        for m in (1..l).rev() {
+        // (dense in the upper half, where a limit that silently grows would first be enough; a few small ones)
+        let mut ms: Vec<usize> = (((l / 2).saturating_sub(1)).max(1)..l).rev().collect();
+        ms.extend([1usize, 2, l / 3].iter().filter(|m| **m >= 1 && **m < (l / 2).saturating_sub(1).max(1)));
+        ms.dedup();
+        for m in ms {
             let mut cfg = base_cfg(tier);
             cfg.max_branches = Some(m);
             cfg.keep_paths = false;
@@ -547,13 +551,13 @@ fn c19(p: &Prog, rec: &mut Rec, tier: u8) {
         // the same limits for a run that is resumed from a checkpoint (the stored path is loaded, then the limit applied):
         // for a few stop points k, the remaining executions need L_k = the longest path from iteration k on; resuming with
         // any smaller limit must fail as documented, resuming with L_k must complete
-        if l >= 3 && base.iters >= 3 && rec.idx % 3 == 0 {
+        if l >= 3 && base.iters >= 3 && rec.idx % 4 == 0 {
             let n = base.iters;
             let dir = verif_root().join("work");
             let _ = std::fs::create_dir_all(&dir);
             let file = dir.join(format!("c19-ckpt-{}-{}.json", std::process::id(), rec.idx)).to_string_lossy().to_string();
             let copy = format!("{}.run", file);
-            let mut ks = vec![2, n / 2 + 1, n - 1];
+            let mut ks = vec![2, n / 2 + 1];
             ks.retain(|k| *k >= 2 && *k <= n);
             ks.dedup();
             'ks: for k in ks {
@@ -572,7 +576,7 @@ fn c19(p: &Prog, rec: &mut Rec, tier: u8) {
                 if first.panic.is_some() || !std::path::Path::new(&file).exists() {
                     continue;
                 }
-                let mut ms: Vec<usize> = (lk.saturating_sub(6).max(1)..lk).rev().collect();
+                let mut ms: Vec<usize> = (lk.saturating_sub(4).max(1)..lk).rev().collect();
                 ms.push((lk / 2).max(1));
                 ms.push(lk);
                 for m in ms {
